@@ -160,8 +160,8 @@ def _field(ins, ctx, env):
         ref = ins.get("length")
         if ref is not None and not ref.isdigit():
             ctx.lengths[ref] = True
-            if opt:
-                raise Unspec("optional field referenced by a length field")
+            if opt != is_bool_attr(ctx.fields[ref][2], "optional"):
+                raise Unspec("a length field and the field it measures must both be optional or both required")
     if t.kind == "struct" and _struct_unspecified(t.name, env):
         raise Unspec("struct with unspecified shape")
     if opt:
@@ -195,8 +195,8 @@ def _array(ins, ctx, env):
     ref = ins.get("length")
     if ref is not None and not ref.isdigit():
         ctx.lengths[ref] = True
-        if opt:
-            raise Unspec("optional array referenced by a length field")
+        if opt != is_bool_attr(ctx.fields[ref][2], "optional"):
+            raise Unspec("a length field and the array it measures must both be optional or both required")
     if opt:
         ctx.opt = True
 
@@ -210,7 +210,7 @@ def _length(ins, ctx, env):
         raise Invalid("W8", "length field of non-integer type")
     opt = _optional_rule(ins, ctx)
     if opt:
-        raise Unspec("optional length field")
+        ctx.opt = True
     off = ins.get("offset")
     if off is not None:
         try:
